@@ -632,6 +632,7 @@ func checkExpiryPass(c *Ctx, fn *ssa.Function) {
 		certV, nowV ssa.Value
 	}
 	var tests []vtest
+	testHelpers := map[*ssa.Function]bool{} // helpers / closures of the pass that hold the validity test and the removal it gates
 	for _, call := range callsIn(fn) {
 		cv, ok := call.(*ssa.Call)
 		if !ok {
@@ -642,7 +643,26 @@ func checkExpiryPass(c *Ctx, fn *ssa.Function) {
 			continue
 		}
 		h := w.helperOf(cv)
-		if h == nil || !w.transparent(h) || len(cv.Call.Args) != len(h.Params) {
+		if h != nil && h.Parent() == fn && len(cv.Call.Args) == len(h.Params) {
+			// a closure of the pass called for each certificate (it reads the clock the pass took)
+		} else if h == nil {
+			// ... or such a closure kept in a local variable
+			if mc, isMC := cv.Call.Value.(*ssa.MakeClosure); isMC {
+				h, _ = mc.Fn.(*ssa.Function)
+			} else if ld, isLd := cv.Call.Value.(*ssa.UnOp); isLd && ld.Op == token.MUL {
+				// the closure kept in a local variable
+				if a, isA := ld.X.(*ssa.Alloc); isA {
+					if sts, okc := cellStores(a); okc && len(sts) == 1 {
+						if mc, isMC := sts[0].Val.(*ssa.MakeClosure); isMC {
+							h, _ = mc.Fn.(*ssa.Function)
+						}
+					}
+				}
+			}
+			if h == nil || h.Parent() != fn || len(cv.Call.Args) != len(h.Params) {
+				continue
+			}
+		} else if !w.transparent(h) || len(cv.Call.Args) != len(h.Params) {
 			continue
 		}
 		for _, hc := range callsIn(h) {
@@ -656,9 +676,20 @@ func checkExpiryPass(c *Ctx, fn *ssa.Function) {
 						return cv.Call.Args[i]
 					}
 				}
+				// a variable of the pass captured by the closure, assigned once
+				if ld, isLd := v.(*ssa.UnOp); isLd && ld.Op == token.MUL {
+					if fv, isFV := ld.X.(*ssa.FreeVar); isFV {
+						if a, isA := freeVarBinding(fv).(*ssa.Alloc); isA {
+							if sts, okc := cellStores(a); okc && len(sts) == 1 {
+								return sts[0].Val
+							}
+						}
+					}
+				}
 				return v
 			}
 			tests = append(tests, vtest{hv, up(hv.Call.Args[0]), up(hv.Call.Args[1])})
+			testHelpers[h] = true
 		}
 	}
 	for _, vt := range tests {
@@ -735,7 +766,16 @@ func checkExpiryPass(c *Ctx, fn *ssa.Function) {
 	// every removal in the pass is under validity == false
 	for _, rc := range removalSites(w, fn) {
 		if rc.Parent() != fn {
-			// inside the helper closure: it is only reachable through the closure calls checked above
+			if testHelpers[rc.Parent()] {
+				// inside the closure that holds the validity test: gated by that test there
+				hf := w.factsOf(rc.Parent())
+				okIn := hf.Any(rc.Block(), func(l Lit) bool {
+					cv, ok := l.V.(*ssa.Call)
+					return ok && !l.Pol && strings.HasSuffix(calleeName(cv), "sshutils/cert.ValidateSSHCertTime")
+				})
+				c.Check(okIn, "R4.passes", "expiry|removal only of invalid certificates", w.Pos(rc.Pos()), "must-fact validity == false", "a certificate can be removed by the expiry pass although its validity test did not fail")
+			}
+			// inside the remover closure: it is only reachable through the closure calls checked below
 			continue
 		}
 		okGate := f.Any(rc.Block(), func(l Lit) bool {
@@ -747,6 +787,9 @@ func checkExpiryPass(c *Ctx, fn *ssa.Function) {
 	for _, b := range fn.Blocks {
 		for _, ins := range b.Instrs {
 			if rc, ok := ins.(*ssa.Call); ok && isClosureCall(rc) {
+				if mc, isMC := rc.Call.Value.(*ssa.MakeClosure); isMC && testHelpers[mc.Fn.(*ssa.Function)] {
+					continue // the closure tests the certificate itself (judged above, test by test)
+				}
 				okGate := f.Any(b, func(l Lit) bool {
 					cv, ok := l.V.(*ssa.Call)
 					return ok && !l.Pol && strings.HasSuffix(calleeName(cv), "sshutils/cert.ValidateSSHCertTime")
